@@ -1101,7 +1101,7 @@ func gen(a Args, out *Out) {
 	// scenario 3: across both codecs
 	thresholds := []int{1, 4, 9, 10, 64, 4096, 8192}
 	for i := 0; i < 300*scale; i++ {
-		h := genHdr(rng, true)
+		h := genHdr(rng, rng.Bool()) // marks preset by the sender are dropped by the encoder
 		cd := 1 + rng.Intn(2)
 		thr := thresholds[rng.Intn(len(thresholds))]
 		encb := rng.Bool()
@@ -1271,7 +1271,7 @@ func gen(a Args, out *Out) {
 	// scenario 12: the library's own helpers (qnet/util.go) over a pipe: request, refusal / reply
 	for i := 0; i < 40*scale; i++ {
 		cd := 1 + rng.Intn(2)
-		cmd := int64(rng.PickI64(1, 77, 1001, idString, idPingReq, math.MaxInt32-1, -5))
+		cmd := int64(rng.PickI64(1, 77, 1001, idString, idPingAck, math.MaxInt32-1, -5))
 		switch i % 4 {
 		case 0, 1:
 			emit("pipe-refuse", List(Int(12), Int(int64(cd)), Int(cmd), Int(0), Int(genErrno(rng))))
